@@ -13,11 +13,11 @@ FI == IOEnv.F_IMPL = "1"
 ImplDriftStep(e) ==
   IF ~FI \/ e.outcome # "ok" \/ e.res = 0 \/ ~WFExpr(e.hb, e.work) \/ WFExprFailing(e.ha, e.res) # {} THEN {} ELSE
   LET s == TermOf(e.hb, e.work)  o == TermOf(e.ha, e.res)  path == PathTo(e.hb, e.node)  ic == ImplCan(e.rule, e.opt, s, path) IN
-  {"branch:" \o BranchOf(e.rule, e.opt, s, path)} \cup
   IF ~AllConstsHaveValues(s) \/ ic = "unmodelled" THEN {"note_impl_unmodelled"}
-  ELSE IF ic = "no" THEN {"drift_impl_applicability"}
-  ELSE IF ~AllConstsHaveValues(o) THEN {"note_impl_unmodelled"}
-  ELSE IF NormC(ImplOut(e.rule, e.opt, s, path)) = NormC(o) THEN {} ELSE {"drift_impl_result"}
+  ELSE IF ic = "no" THEN {"drift_impl_applicability"}          \* (the branch classifier is only defined where the model applies)
+  ELSE {"branch:" \o BranchOf(e.rule, e.opt, s, path)} \cup
+       (IF ~AllConstsHaveValues(o) THEN {"note_impl_unmodelled"}
+        ELSE IF NormC(ImplOut(e.rule, e.opt, s, path)) = NormC(o) THEN {} ELSE {"drift_impl_result"})
 ImplDriftProbe(e) ==
   IF ~FI \/ e.exc # "" \/ ~WFExpr(e.hb, e.root) THEN {} ELSE
   LET s == TermOf(e.hb, e.root)  io == InOrderNodes(e.hb, e.root) IN
